@@ -439,8 +439,13 @@ func c16Routes(c *Ctx) {
 		{Name: "Get", In: "Req", Out: "Reply", Unary: mk("Get"), Rule: getRule("/c16i/any/thing")},
 		{Name: "Lit", In: "Req", Out: "Reply", Unary: mk("Lit"), Rule: postRule("/c16i/files/large", "*")},
 		{Name: "Var", In: "Req", Out: "Reply", Unary: mk("Var"), Rule: getRule("/c16i/files/{name}")},
+		// ":cancel" (a verb) and "/cancel" (a segment) spell two different templates
+		{Name: "Verb", In: "Req", Out: "Reply", Unary: mk("Verb"), Rule: getRule("/c16i/things:cancel")},
+		{Name: "Seg", In: "Req", Out: "Reply", Unary: mk("Seg"), Rule: getRule("/c16i/things/cancel")},
+		{Name: "VVerb", In: "Req", Out: "Reply", Unary: mk("VVerb"), Rule: getRule("/c16i/jobs/{name}:cancel")},
+		{Name: "VSeg", In: "Req", Out: "Reply", Unary: mk("VSeg"), Rule: getRule("/c16i/jobs/{name}/cancel")},
 	}
-	for _, order := range [][]int{{0, 1, 2, 3, 4, 5}, {5, 4, 3, 2, 1, 0}, {1, 0, 3, 2, 5, 4}} {
+	for _, order := range [][]int{{0, 1, 2, 3, 4, 5, 6, 7, 8, 9}, {9, 8, 7, 6, 5, 4, 3, 2, 1, 0}, {1, 0, 3, 2, 5, 4, 7, 6, 9, 8}} {
 		var ms []*MethodSpec
 		for _, i := range order {
 			ms = append(ms, specs[i])
@@ -454,6 +459,7 @@ func c16Routes(c *Ctx) {
 			{"GET", "/c16i/x/one", "One"}, {"GET", "/c16i/a/one", "One"}, {"GET", "/c16i/any/one", "One"}, {"GET", "/c16i/files/one", "Var"},
 			{"GET", "/c16i/a/b/7", "Deep"}, {"GET", "/c16i/any/thing", "Get"}, {"POST", "/c16i/any/thing", "Any"}, {"DELETE", "/c16i/any/thing", "Any"},
 			{"POST", "/c16i/files/large", "Lit"}, {"GET", "/c16i/files/large", "Var"}, {"GET", "/c16i/files/a", "Var"},
+			{"GET", "/c16i/things:cancel", "Verb"}, {"GET", "/c16i/things/cancel", "Seg"}, {"GET", "/c16i/jobs/j1:cancel", "VVerb"}, {"GET", "/c16i/jobs/j1/cancel", "VSeg"},
 		} {
 			got = ""
 			var r = httptest.NewRequest(p.verb, p.path, nil)
